@@ -337,6 +337,7 @@ def render_decl(k, line, rng=None, name=None):
             return "%s{t: %s%s}" % (T(t), term_expr, (", " + fl) if fl else "")
         return "%s{t: %s}" % (T(t), term_expr)
     exprs = []
+    value_ids = set()
     for i, p in enumerate(provs):
         pid = "D%dP%d" % (k, i)
         if p['kind'] == 1:
@@ -358,6 +359,7 @@ def render_decl(k, line, rng=None, name=None):
             use_value = (rng is not None and not p['req'] and len(p['groups']) == 1 and len(p['groups'][0]) == 1
                          and not p['e'] and not p['a'] and rng.chance(0.3))
             if use_value:
+                value_ids.add(i)
                 e = "kessoku.Value(%s)" % value_lit(p['groups'][0][0], '"P%d.0()"' % i)
             else:
                 src.append("func %s(%s) (%s) {\n%s\n}" % (pid, params, ", ".join(rets), "\n".join(body)))
@@ -382,7 +384,7 @@ def render_decl(k, line, rng=None, name=None):
             exprs = exprs[:a] + ["kessoku.Set(%s)" % ", ".join(inner)] + exprs[b + 1:]
     src += pre
     src.append('var _ = kessoku.Inject[%s]("%s",\n%s\n)' % (T(ret), name, "\n".join("\t%s," % e for e in exprs)))
-    return src, mk
+    return src, mk, value_ids
 
 GOMOD = """module e2e
 
@@ -409,6 +411,7 @@ class Module:
         open(os.path.join(self.root, "rt", "rt.go"), "w").write(RT_GO)
         open(os.path.join(self.root, "cmd", "run", "main.go"), "w").write(RUN_GO)
         self.files = []
+        self.value_ids = {}
     def env(self):
         return {"GOFLAGS": "-mod=mod", "GOWORK": "off", "GOTOOLCHAIN": "go1.25.5"}
     def write_decls(self, decls, perfile=20, rng=None, start=0):
@@ -419,7 +422,8 @@ class Module:
         for fi in range(0, len(decls), perfile):
             src = ["package p", "", "import (", '\t"context"', '\t"e2e/rt"', '\t"github.com/mazrean/kessoku"', ")", "", "var _ context.Context", 'var _ = rt.Enter', ""]
             for k, line in decls[fi:fi + perfile]:
-                s, mk = render_decl(k, line, rng)
+                s, mk, vids = render_decl(k, line, rng)
+                self.value_ids[k] = vids
                 src += s + [""]
                 allmk += mk
                 names.append("Init%d" % k)
